@@ -113,7 +113,10 @@ fn check_mode(ctx: &Ctx, b: &Built, da: &ModuleD, mode: &str, edit_bytes: &[u8],
             let msg: String = msg.chars().take(90).collect();
             let multi = b.plan.sequences.iter().any(|s| s.len() > 1);
             let sig = if multi {
-                format!("multi-function-sequence:emit-panic:{}", msg)
+                {
+                    let _ = &msg;
+                    "multi-function-sequence:emit-panic".to_string()
+                }
             } else {
                 format!("dwarf-emit-panic:{}:v{}", msg, b.plan.version)
             };
@@ -177,7 +180,10 @@ fn check_mode(ctx: &Ctx, b: &Built, da: &ModuleD, mode: &str, edit_bytes: &[u8],
     let in_multi: HashSet<usize> = b.plan.sequences.iter().filter(|s| s.len() > 1).flat_map(|s| s.iter().copied()).collect();
     let tag = |fo: usize, sig: String| -> String {
         if in_multi.contains(&fo) {
-            format!("multi-function-sequence:{}", sig)
+            // one root cause (sequences spanning functions are converted row
+            // by row without re-sorting or splitting), many manifestations
+            let _ = sig;
+            "multi-function-sequence:rows-misplaced-or-dropped".to_string()
         } else {
             sig
         }
@@ -193,7 +199,7 @@ fn check_mode(ctx: &Ctx, b: &Built, da: &ModuleD, mode: &str, edit_bytes: &[u8],
                     ctx.known_or(
                         out,
                         Failure::new(
-                            if in_multi.is_empty() { "row-addresses-decrease-within-sequence".to_string() } else { "multi-function-sequence:row-addresses-decrease-within-sequence".to_string() },
+                            if in_multi.is_empty() { "row-addresses-decrease-within-sequence".to_string() } else { "multi-function-sequence:rows-misplaced-or-dropped".to_string() },
                             format!("[{}] a line sequence of the output goes from address {} back to {} [{}]", mode, l, addr, origin),
                         ),
                     )?;
@@ -672,13 +678,13 @@ fn run(ctx: &Ctx) {
     let plans = [
         GenPlan {
             gen: "dwarf",
-            cases: ctx.tier.pick(1500, 60_000),
+            cases: ctx.tier.pick(8000, 200_000),
             min_len: 40,
             max_len: ctx.tier.pick(900, 2500),
         },
         GenPlan {
             gen: "manyfuncs",
-            cases: ctx.tier.pick(100, 3000),
+            cases: ctx.tier.pick(200, 4000),
             min_len: 40,
             max_len: 900,
         },
